@@ -35,6 +35,8 @@ func (c14) Info() core.Info {
 			"(halt_on_error=0, reports counted from the log, de-duplicated by the /repo functions of the two stacks); (2) every concurrent result equals the sequential one; (3) the " +
 			"table/parser/profile fingerprints and the snapshot of the shared base are unchanged after the join. The evidence lists which pairs of operations on the same shared " +
 			"object were actually in flight at the same time (from goroutine-local logs stamped with the monotonic clock; evidence only, never a verdict). " +
+			"Each of the 64 (quick) / 256 (thorough) short-lived worker processes takes the fingerprints BEFORE it uses the library and starts with two cold rounds: all goroutines run the same " +
+			"call list (incl. inputs that reach lazily initialised paths) with no sequential use before, expected results computed after the join - first-use races and lazily written package-level state show there. " +
 			"Non-trivial: a round in which at least two goroutines ran calls on shared objects; distinct by round seed.",
 		Assumptions: []string{"concurrent SearchParams() on a shared URL and any concurrent mutation are outside the property",
 			"absence of race reports is relative to the paths the rounds executed and to the race detector's shadow window"},
@@ -43,12 +45,42 @@ func (c14) Info() core.Info {
 	}
 }
 
-func (c14) Plan(tier string) core.Plan { return core.Plan{Shards: 16, CPUSeconds: 3000} }
+// Many short-lived worker processes: lazily initialised package-level state can only race on
+// its FIRST use in a process, so every process starts with "cold" rounds (see Exec).
+func (c14) Plan(tier string) core.Plan {
+	if tier == "thorough" {
+		return core.Plan{Shards: 256, CPUSeconds: 3000}
+	}
+	return core.Plan{Shards: 64, CPUSeconds: 3000}
+}
+
+// c14Baseline: fingerprints of every package-level table and predefined profile, taken when
+// the worker process has not used the library yet.
+var c14Baseline struct {
+	taken    bool
+	table    uint64
+	profiles [4]uint64
+}
+
+func c14TakeBaseline() {
+	if c14Baseline.taken {
+		return
+	}
+	c14Baseline.taken = true
+	c14Baseline.table = url.VerifTableFingerprint()
+	for i, p := range c14profiles {
+		c14Baseline.profiles[i], _ = canonicalizer.VerifProfileFingerprint(p)
+	}
+}
 
 func (m c14) Run(ctx *core.Ctx) {
+	c14TakeBaseline()
 	n := split(tierN(ctx.Tier, 3_200, 64_000), ctx.Shard, ctx.NShards)
 	for i := int64(0); i < n; i++ {
 		cs := &core.Case{Check: "round", N: int(ctx.Rng.Uint32() >> 1)}
+		if i < 2 {
+			cs.Check = "cold-round" // the first use of the library in this process happens concurrently
+		}
 		ctx.Begin(cs)
 		m.Exec(ctx, cs)
 	}
@@ -130,7 +162,89 @@ type c14log struct {
 	start, end time.Duration
 }
 
-func (c14) Exec(ctx *core.Ctx, cs *core.Case) {
+// coldRound: all goroutines run the SAME call list on the package functions, a fresh parser
+// and the four profiles, without any sequential use of those objects before; the expected
+// results are computed after the join.  This is where first-use (lazy initialisation) races
+// on package-level tables, profiles and parser values become visible.
+func (c14) coldRound(ctx *core.Ctx, cs *core.Case) {
+	c14TakeBaseline()
+	r := rand.New(rand.NewPCG(uint64(cs.N), 0xC0FD))
+	K := []int{4, 8, 16}[r.IntN(3)]
+	old := runtime.GOMAXPROCS(16)
+	defer runtime.GOMAXPROCS(old)
+	cfg := randomConfig(r)
+	for len(cfg) == 1 && len(cfg[0]) > 8 && cfg[0][:8] == "profile:" {
+		cfg = randomConfig(r)
+	}
+	baseStr := gen.ParseableBase(r)
+	shared := &c14objs{parser: buildParser(cfg)}
+	n := 40 + r.IntN(60)
+	plan := make([]c14call, n)
+	lazyInputs := []string{"http://h/%", "http://h/%zz?%#%", "http://ex%ample.com/", "http://bücher.example/%", "http://a%25b/", "http://h/a%2", "//h/%", "http://h/?a=%&b", "a:%", "http://münchen.example/ü?ü#ü"}
+	for i := range plan {
+		c := c14call{kind: gen.Pick(r, []string{"url.Parse", "url.ParseRef", "parser.Parse", "parser.ParseRef", "profile.Parse", "profile.Parse", "profile.ParseRef"}), prof: r.IntN(4)}
+		switch {
+		case i < 8 || r.IntN(4) == 0:
+			c.a = gen.Pick(r, lazyInputs)
+		case c.kind == "url.Parse" || c.kind == "parser.Parse" || c.kind == "profile.Parse":
+			c.a = gen.Input(r)
+		default:
+			c.a = gen.Reference(r)
+		}
+		plan[i] = c
+	}
+	results := make([][]string, K)
+	var wg sync.WaitGroup
+	gate := make(chan struct{})
+	for g := 0; g < K; g++ {
+		results[g] = make([]string, n)
+		wg.Add(1)
+		go func(g int) {
+			defer wg.Done()
+			<-gate
+			for i := range plan {
+				results[g][i] = plan[i].run(shared, baseStr)
+			}
+		}(g)
+	}
+	close(gate)
+	wg.Wait()
+	ctx.Nontrivial()
+	ctx.Count("cold_rounds")
+	ctx.Add("goroutines", int64(K))
+	ctx.Add("concurrent_calls", int64(K*n))
+	for i := range plan {
+		want := plan[i].run(shared, baseStr) // alone, after the join
+		for g := 0; g < K; g++ {
+			if results[g][i] != want {
+				ctx.Violate("a concurrent call returned something else than the same call run alone", want, results[g][i],
+					fmt.Sprintf("cold round, goroutine %d call %d %s(%q) base %q config %v", g, i, plan[i].kind, plan[i].a, baseStr, cfg))
+				return
+			}
+		}
+	}
+	c14CheckBaseline(ctx, "cold round")
+}
+
+func c14CheckBaseline(ctx *core.Ctx, where string) {
+	if fp := url.VerifTableFingerprint(); fp != c14Baseline.table {
+		ctx.Violate("a package-level table was modified after initialisation", c14Baseline.table, fp, where+" (fingerprint taken before the process used the library)")
+		c14Baseline.table = fp
+	}
+	for i, p := range c14profiles {
+		if fp, _ := canonicalizer.VerifProfileFingerprint(p); fp != c14Baseline.profiles[i] {
+			ctx.Violate("a predefined profile (or a table it points to) was modified after initialisation", c14Baseline.profiles[i], fp, where+": "+profileNames[i])
+			c14Baseline.profiles[i] = fp
+		}
+	}
+}
+
+func (m c14) Exec(ctx *core.Ctx, cs *core.Case) {
+	if cs.Check == "cold-round" {
+		m.coldRound(ctx, cs)
+		return
+	}
+	c14TakeBaseline()
 	r := rand.New(rand.NewPCG(uint64(cs.N), 0xC14))
 	K := []int{2, 4, 16}[r.IntN(3)]
 	procs := []int{2, 8, 16}[r.IntN(3)]
@@ -264,6 +378,7 @@ func (c14) Exec(ctx *core.Ctx, cs *core.Case) {
 			ctx.Violate("a predefined profile changed during use", fpProfiles[i], fp, profileNames[i])
 		}
 	}
+	c14CheckBaseline(ctx, "round")
 	// overlap evidence: pairs of operations on the same shared object in flight at the same time
 	// (goroutine 0 against goroutine 1; the clock feeds evidence only)
 	a, b := logs[0], logs[1]
